@@ -19,6 +19,7 @@ class Budget(BaseException):
 
 
 _ABSTRACT_MEMO = {}
+FLOAT_FALLBACK = None
 import random as _random
 _SAMPLER = _random.Random(12345)
 import os as _os
@@ -489,6 +490,9 @@ class SymReal:
     __hash__ = None
 
     def __float__(self):
+        if FLOAT_FALLBACK is not None:
+            # only for harnesses that stub out progress output: the formatted number is a placeholder
+            return FLOAT_FALLBACK
         raise TypeError('SymReal cannot be realised as float (compiled-code boundary reached)')
 
     # numpy calls the method of the same name on the elements of object arrays
